@@ -28,6 +28,7 @@ type ctx struct {
 	tier  string
 	out   *bufio.Writer
 	count int
+	sidCell int // pluggen: which server-address x server-identifier combination req4 builds (-1 = random)
 }
 
 func (c *ctx) emit(op, res string) {
